@@ -121,6 +121,44 @@ Section Statements.
   Theorem C11_json_roundtrip_shape f :
     loaded_shape valid f -> ids_printable f -> from_json_kv valid (JObject (to_json_kv f)) = Some f.
   Proof. exact (json_roundtrip_eq valid f). Qed.
+
+  (* the payload pattern through to_json.  A loaded filter's pattern p is written as the text t from which
+     from_json's rule — prefix "(?i)" exactly when ignoreCasePayload is set — rebuilds p; the option is written
+     exactly when it is set; no "payload" member is written next to it *)
+  Theorem C11_to_json_payload_regex_inverse f p :
+    loaded valid f -> f_payload_regex f = Some p ->
+    exists t, jget KPayloadRegex (to_json_kv f) = JStr t /\
+              (if f_ignore_case f then ci_prefix ++ t else t) = p /\
+              jget KIgnoreCasePayload (to_json_kv f) = (if f_ignore_case f then JBool true else JNull) /\
+              jget KPayload (to_json_kv f) = JNull.
+  Proof. intros Hl. exact (to_json_payload_regex_inverse valid f p (loaded_has_shape valid f Hl)). Qed.
+
+  (* from_json then to_json writes the "payloadRegex" member back verbatim — whatever the text starts with (its own
+     inline flag group "(?i)", "(?i:..)", "^(?i)", ...) and whether ignoreCasePayload is true, false or absent *)
+  Theorem C11_json_payload_regex_text_kept o f s :
+    from_json_kv valid (JObject o) = Some f -> as_str (jget KPayloadRegex o) = Some s ->
+    f_payload_regex f = Some (if f_ignore_case f then ci_prefix ++ s else s) /\
+    jget KPayloadRegex (to_json_kv f) = JStr s /\
+    jget KIgnoreCasePayload (to_json_kv f) = (if f_ignore_case f then JBool true else JNull).
+  Proof. exact (json_payload_regex_text_kept valid o f s). Qed.
+
+  (* in particular a pattern that carries its own leading "(?i)" while ignoreCasePayload is absent / false keeps the
+     group in the written JSON, nothing about case is added, and the reloaded filter is the same filter: it has the
+     pattern "(?i)"++s again and decides identically on every message *)
+  Theorem C11_json_roundtrip_inline_flag o f s :
+    from_json_kv valid (JObject o) = Some f -> as_str (jget KPayloadRegex o) = Some (ci_prefix ++ s) ->
+    f_ignore_case f = false -> ids_printable f ->
+    jget KPayloadRegex (to_json_kv f) = JStr (ci_prefix ++ s) /\
+    jget KIgnoreCasePayload (to_json_kv f) = JNull /\
+    exists f', from_json_kv valid (JObject (to_json_kv f)) = Some f' /\
+               f_payload_regex f' = Some (ci_prefix ++ s) /\ f_ignore_case f' = false /\
+               forall m, matches re f' m = matches re f m.
+  Proof.
+    intros Hl Hs Hic Hp. destruct (C11_json_payload_regex_text_kept o f _ Hl Hs) as (Hpat & Hw & Hm).
+    rewrite Hic in Hpat, Hm. split; [exact Hw|]. split; [exact Hm|].
+    exists f. split; [|split; [exact Hpat|split; [exact Hic|reflexivity]]].
+    exact (json_roundtrip_eq valid f (from_json_shape valid _ f Hl) Hp).
+  Qed.
 End Statements.
 
 (* ---------------------------------------------------------------- non-vacuity and kept witnesses *)
@@ -180,6 +218,27 @@ Example C11_witness_dlf_literal_case_sensitive :
   f_payload_as_regex f = None /\ payload_crit f = Some (PLiteral [102; 111; 111]).
 Proof. vm_compute. split; reflexivity. Qed.
 
+(* wave 6: {"type":0,"payloadRegex":"(?i)error"} (no ignoreCasePayload) is written back with its "(?i)" and without
+   an ignoreCasePayload member; under an engine for which "(?i)" means ASCII-case-insensitive search the loaded and
+   the reloaded filter match "ERROR in module" while the filter for the text without the group does not — dropping
+   the group on serialisation would change decisions *)
+Definition ex_lower (t : text) : text := map (fun c => if (65 <=? c) && (c <=? 90) then c + 32 else c) t.
+Definition ex_re_ci : engine -> pattern -> text -> bool :=
+  fun _ p t => if is_prefix ci_prefix p then substr (ex_lower (skipn 4 p)) (ex_lower t) else substr p t.
+Definition ex_error : text := [101; 114; 114; 111; 114].
+Definition ex_msg_text (t : text) : msg :=
+  {| m_ecu := (69, 67, 85, 49); m_ext := None; m_text := Some t; m_lc := 0 |}.
+Example C11_witness_inline_flag_is_serialised :
+  exists f f0,
+    from_json_kv ex_valid (JObject [(KType, JNum 0); (KPayloadRegex, JStr (ci_prefix ++ ex_error))]) = Some f /\
+    to_json_kv f = [(KType, JNum 0); (KPayloadRegex, JStr (ci_prefix ++ ex_error))] /\
+    from_json_kv ex_valid (JObject (to_json_kv f)) = Some f /\
+    from_json_kv ex_valid (JObject [(KType, JNum 0); (KPayloadRegex, JStr ex_error)]) = Some f0 /\
+    (* "ERROR in module" *)
+    let m := ex_msg_text [69; 82; 82; 79; 82; 32; 105; 110; 32; 109; 111; 100; 117; 108; 101] in
+    matches ex_re_ci f m = true /\ matches ex_re_ci f0 m = false.
+Proof. eexists. eexists. repeat split; vm_compute; reflexivity. Qed.
+
 (* why the round trip is stated for printable-ASCII ids: DltChar4 is written through its Display, which shows a
    control character as '-' — a list-format filter for the apid "A\x01BC" comes back as a filter for "A-BC" *)
 Example C11_json_roundtrip_needs_printable_ids :
@@ -211,3 +270,7 @@ Print Assumptions C11_nonvacuous.
 Print Assumptions C11_witness_mstp_is_serialised.
 Print Assumptions C11_witness_dlf_literal_case_sensitive.
 Print Assumptions C11_json_roundtrip_needs_printable_ids.
+Print Assumptions C11_to_json_payload_regex_inverse.
+Print Assumptions C11_json_payload_regex_text_kept.
+Print Assumptions C11_json_roundtrip_inline_flag.
+Print Assumptions C11_witness_inline_flag_is_serialised.
